@@ -109,6 +109,10 @@ def has_sub(prog):
     return any(c['t'] == 'sub' for c in prog)
 
 
+def has_multi(prog):
+    return any(c['t'] == 'leaf' and c.get('rel') and c['rel'][0] == 'multi' for c in prog)
+
+
 def has_rel(prog):
     return any((c['t'] == 'sub' and has_rel(c['body'])) or (c['t'] == 'leaf' and c.get('rel')) for c in prog)
 
@@ -233,7 +237,10 @@ def _fix_rels(prog, removed):
     for c in prog:
         c = dict(c)
         r = c.get('rel')
-        if c['t'] == 'leaf' and r and r[0] != 'dangling':
+        if c['t'] == 'leaf' and r and r[0] == 'multi':
+            ms = [m - 1 if m > removed else m for m in r[2] if m != removed]
+            c['rel'] = ['multi', r[1], ms] if ms else None
+        elif c['t'] == 'leaf' and r and r[0] != 'dangling':
             if r[1] == removed:
                 c['rel'] = None
             elif r[1] > removed:
